@@ -18,15 +18,25 @@ theorem RowOk.get_seq {f : Msg} {n : Int} (h : RowOk f n) : f.get tMsgSeqNum = .
 theorem RowOk.get_ty {f : Msg} {n : Int} (h : RowOk f n) : f.get tMsgType = .ok f.mtype := by
   simp [Msg.get, h.ty]
 
-theorem loop_skip (env : Env) (sr : Msg → Bool) (row : Msg) (rest : List Msg) (n gfb gfe : Int)
-    (c : Conn) (hr : RowOk row n) (hs : ¬ Replayable sr row) :
-    resendLoop env sr (row :: rest) gfb gfe c = resendLoop env sr rest gfb (n + 1) c := by
+/-- a row above the requested EndSeqNo goes back into the journal unsent -/
+theorem loop_high (env : Env) (sr : Msg → Bool) (e : Int) (row : Msg) (rest : List Msg) (n gfb gfe : Int)
+    (c : Conn) (hr : RowOk row n) (hne : e < n) (hlt : Rows.AllLt n c.journal.out) :
+    resendLoop env sr e (row :: rest) gfb gfe c =
+      resendLoop env sr e rest gfb gfe (setOut c (c.journal.out ++ [(n, row)]) n) := by
+  conv => lhs; unfold resendLoop
+  rw [hr.get_seq, run_bind_liftE_ok, run_bind_of_ok (run_int_some (pyInt_pyStr n) c), Out.pre_nil,
+    run_ite, if_pos (by omega : n > e), run_bind_of_ok (persistOutboundRow_run n row c hlt), Out.pre_nil]
+
+theorem loop_skip (env : Env) (sr : Msg → Bool) (e : Int) (row : Msg) (rest : List Msg) (n gfb gfe : Int)
+    (c : Conn) (hr : RowOk row n) (hne : n ≤ e) (hs : ¬ Replayable sr row) :
+    resendLoop env sr e (row :: rest) gfb gfe c = resendLoop env sr e rest gfb (n + 1) c := by
   have hs' : (ConnEnum.noReplay.contains row.mtype || !sr row) = true := by
     cases hx : (ConnEnum.noReplay.contains row.mtype || !sr row) with
     | true => rfl
     | false => exact absurd hx hs
   conv => lhs; unfold resendLoop
   rw [hr.get_seq, run_bind_liftE_ok, run_bind_of_ok (run_int_some (pyInt_pyStr n) c), Out.pre_nil,
+    run_ite, if_neg (by omega : ¬ n > e),
     hr.get_ty, run_bind_liftE_ok, run_ite, if_pos hs']
 
 theorem not_testRequest_of_replayable {sr : Msg → Bool} {g : Msg} (h : Replayable sr g) :
@@ -49,14 +59,15 @@ def replayEff (s : Session) (stamp : String) (gfb n : Int) (rp : Msg) : List Eff
   (if gfb < n then [Effect.write (buildFrame s stamp (gapFillMsg gfb n) gfb)] else [])
     ++ [.write (buildFrame s stamp rp n)]
 
-theorem loop_replay (env : Env) (sr : Msg → Bool) (row rp : Msg) (rest : List Msg) (n gfb gfe : Int)
-    (c : Conn) (hc : ResendCtx env c) (hr : RowOk row n) (hs : Replayable sr row)
+theorem loop_replay (env : Env) (sr : Msg → Bool) (e : Int) (row rp : Msg) (rest : List Msg)
+    (n gfb gfe : Int)
+    (c : Conn) (hc : ResendCtx env c) (hr : RowOk row n) (hne : n ≤ e) (hs : Replayable sr row)
     (hrp : prepareReplay row = .ok rp) (hty : rp.mtype = row.mtype)
     (h43 : rp.get? tPossDupFlag = some "Y") (h34 : rp.get? tMsgSeqNum = some (pyStr n))
     (hlat : LatinMsg rp) (hlt : Rows.AllLt gfb c.journal.out) (hle : gfb ≤ n) :
-    resendLoop env sr (row :: rest) gfb gfe c =
+    resendLoop env sr e (row :: rest) gfb gfe c =
       Out.pre (replayEff c.sess env.stamp gfb n rp)
-        (resendLoop env sr rest (n + 1) gfe
+        (resendLoop env sr e rest (n + 1) gfe
           (setOut c (afterReplay c.sess env.stamp c.journal.out gfb n rp) n)) := by
   have hs' : ¬ (ConnEnum.noReplay.contains row.mtype || !sr row) = true := by
     unfold Replayable at hs; rw [hs]; exact Bool.false_ne_true
@@ -65,6 +76,7 @@ theorem loop_replay (env : Env) (sr : Msg → Bool) (row rp : Msg) (rest : List 
     rw [hty]; exact not_testRequest_of_replayable hs
   conv => lhs; unfold resendLoop
   rw [hr.get_seq, run_bind_liftE_ok, run_bind_of_ok (run_int_some (pyInt_pyStr n) c), Out.pre_nil,
+    run_ite, if_neg (by omega : ¬ n > e),
     hr.get_ty, run_bind_liftE_ok, run_ite, if_neg hs']
   by_cases hg : gfb < n
   · rw [if_pos hg, run_bind_of_ok (sendMsg_gapFill env c gfb n hc hlt)]
